@@ -200,7 +200,11 @@ def check(ctx):
         if len(outer) != 1:
             raise AnalysisBroken('per-dimension loop of vegas_refine_pdf not recognised')
         lo_ = outer[0]
-        u = lo_.updates.get('new_pdf.x')
+        # the storage that is returned (whatever the local is called)
+        u = upd_by_final(lo_, fld(s.ret, 'x'))
+        if u is None:
+            cands = [u_ for u_ in lo_.updates.values() if u_['loc'][2] and u_['loc'][2][-1] == ('f', 'x')]
+            u = cands[0] if len(cands) == 1 else None
         if u is None:
             raise AnalysisBroken('vegas_refine_pdf does not write the boundaries of its result')
         skip = False
